@@ -135,6 +135,23 @@ def indexed_fields(facts, res, R):
 
 
 def chains(b):
+    """block -> id of its control-equivalence class (blocks that run the same number of times: one dominates the other and is
+    post-dominated by it).  Pushes in one class stay in lock-step whatever branches lie between them."""
+    reach0 = sorted(b.reachable())
+    reps = []
+    rid0 = {}
+    for blk in reach0:
+        for r in reps:
+            if b.control_equivalent(r, blk):
+                rid0[blk] = r
+                break
+        else:
+            reps.append(blk)
+            rid0[blk] = blk
+    return rid0
+
+
+def chains_straight_line(b):
     """straight-line regions: block -> region id (maximal chains of single-successor / single-predecessor blocks)"""
     rid = {}
     reach = b.reachable()
@@ -337,7 +354,7 @@ def r101(facts, res):
             vname = b.name_of(v) or '_%d' % v
             # Form A: lock-step
             if vinit[:2] == linit[:2] and vpush == lpush and not odd:
-                res.ok(R, key, where, '`%s` starts with the same length as `%s` and is pushed in the same %d straight-line regions' % (vname, lname, len(lpush)))
+                res.ok(R, key, where, '`%s` starts with the same length as `%s` and is pushed in the same %d control-equivalent regions' % (vname, lname, len(lpush)))
                 continue
             # Form B: snapshot of the completed leader
             if vinit[0] == 'len' and vinit[2] == leader and not vpush and not odd:
